@@ -49,6 +49,15 @@ def case_strategy(draw, tier):
     utxos = [{"amount": base * draw(st.sampled_from([1, 1, 1, 2, 3, 5])) + draw(st.integers(0, 3)),
               "acct": draw(st.sampled_from([0, 0, 1])), "n": i % 6,
               "height": draw(st.sampled_from([5, 5, 0])), } for i in range(n)]
+    flavour = draw(st.sampled_from(["normal"] * 5 + ["small_change", "account1_only_small_change"]))
+    if flavour != "normal":
+        # coins worth about the fee of spending them: a sweep of them fails after it already holds inputs
+        for i, u in enumerate(utxos):
+            if flavour == "account1_only_small_change":
+                if u["acct"] == 1 or i % 3 == 0:
+                    u.update(acct=1, amount=7400 + 500 + draw(st.integers(0, 3500)))
+            elif i % 2:
+                u["amount"] = 7400 + 500 + draw(st.integers(0, 3500))
 
     def build():
         kind = draw(st.sampled_from(["pay"] * 6 + ["fund_amount", "fund_everything"]))
@@ -61,7 +70,7 @@ def case_strategy(draw, tier):
         "utxos": utxos,
         "strategy": draw(st.sampled_from(["sqlite", "prefer_confirmed", "only_confirmed", "standard", "branch_and_bound",
                                           "closest_match", "random_draw", None])),
-        "wave1": wave1, "wave2": wave2,
+        "wave1": wave1, "wave2": wave2, "flavour": flavour, "resync": draw(st.sampled_from([False, False, True])),
         "choices": draw(st.lists(st.integers(0, 11), max_size=300)),
         "sticky": draw(st.booleans()),
         "choices_seed": draw(st.sampled_from([None, draw(st.integers(0, 2 ** 32))])),
@@ -130,15 +139,17 @@ async def run_async(case, out):
     ledger.coin_selection_strategy = case["strategy"]
     ledger.network = StubNetwork()
     _random.seed(0)
-    out.label("strategy:%s" % (case["strategy"] or "standard"))
+    out.label("strategy:%s" % (case["strategy"] or "standard"), "utxos:" + case.get("flavour", "normal"))
     # install UTXOs: one funding tx per (height)
     groups = {}
     for i, u in enumerate(case["utxos"]):
         groups.setdefault(u["height"], []).append(u)
     all_points = {}
+    funding_txs = []
     for h, members in groups.items():
         outs = [Output.pay_pubkey_hash(u["amount"], env.addr[(u["acct"], 0, u["n"])][1]) for u in members]
         tx = await env.install(outs, height=h, is_verified=h > 0)
+        funding_txs.append((tx, h))
         for u, txo in zip(members, tx.outputs):
             all_points[(tx.id, txo.position)] = u
 
@@ -180,6 +191,18 @@ async def run_async(case, out):
         # root cause keeps its own tag
         return
     out.label("switches:%s" % ("0" if gate.switches == 0 else "1-9" if gate.switches < 10 else ">=10"))
+    if case.get("resync"):
+        # while builds hold their inputs the wallet sync stores the funding transactions again (it does so whenever their
+        # entry in an address history changes, e.g. on confirmation): a held output must stay held
+        for tx, h in funding_txs:
+            seen = set()
+            for txo in tx.outputs:
+                hh = txo.script.values['pubkey_hash']
+                address = ledger.hash160_to_address(hh)
+                if address in env.addr_info and address not in seen:
+                    seen.add(address)
+                    await ledger.db.save_transaction_io(tx, address, hh, f'{tx.id}:{h}:')
+        out.label("resync_while_held")
     # held outputs are unavailable
     avail = await available()
     for i, pts in held.items():
@@ -250,5 +273,6 @@ def run_case(case):
 
 PARTS = [
     Part("concurrent_builds", lambda tier: case_strategy(tier), run_case, 250, 2500, quick_shards=8, thorough_shards=16,
-         essential=("w1_built:2", "resolve:accept", "resolve:release", "resolve:fail", "wave2", "switches:>=10")),
+         essential=("w1_built:2", "resolve:accept", "resolve:release", "resolve:fail", "wave2", "switches:>=10", "resync_while_held",
+                    "utxos:small_change")),
 ]
